@@ -1,12 +1,16 @@
 import Qv.Driver.C05
 import Qv.Driver.C02
 import Qv.Driver.C19
+import Qv.Driver.C15
+import Qv.Driver.C18
+import Qv.Driver.C07
+import Qv.Driver.C06
 /-! Line-protocol driver: one JSON object per input line, one JSON object per output line.
 Each `Qv/Driver/Cxx.lean` exports `handlersCxx`; add its import above and its list below. -/
 open Lean Qv Qv.Drv
 
 def allHandlers : List (String × (Json → Except String Json)) :=
-  handlersC05 ++ handlersC02 ++ handlersC19
+  handlersC05 ++ handlersC02 ++ handlersC19 ++ handlersC15 ++ handlersC18 ++ handlersC07 ++ handlersC06
 
 def dispatch (j : Json) : Except String Json := do
   let op ← j.getObjVal? "op" >>= Json.getStr?
